@@ -502,6 +502,50 @@ VF_SUB(sig_document_roundtrip_and_flips, 112, 6000) {
 
 // texts whose line-ending forms the two entry points may treat differently (lone CR): the same signature over the same bytes must get
 // the same verdict from VerifyData (memory) and Verify (file)
+// Signature values with leading zero octets.  r and s travel as MPIs, which drop leading zeros; EdDSA wants them back as 32-octet strings,
+// (EC)DSA as integers.  One signature in 256 has a short r, one in 256 a short s - far too rare for the round trips above to meet them,
+// so this sub-property searches for them: documents are generated until the library's own signature falls into the wanted class
+// (r short and s full length, s short and r full length, r shorter by two octets or both short as met on the way), then the untouched
+// signature must verify through every entry point, and one flipped bit in r respectively s must not.
+VF_SUB(sig_value_length_classes, 64, 2500) {
+  PGP::MemoryGuardReset();
+  static const char *names[] = {"eddsa-a", "eddsa-b", "ecdsa256a", "ecdsa384", "dsa2048a", "dsa1024"};
+  Key &k = key_named(names[ctx.c.weighted({6, 6, 2, 1, 1, 1})]); const std::string A = algo_name(k.algo);
+  size_t nominal = k.algo == TMCG_OPENPGP_PKALGO_DSA ? k.qbits / 8 : k.curve == "NIST P-384" ? 48 : 32;
+  int want = (int)ctx.c.weighted({5, 5}); // 0: r short, 1: s short
+  tmcg_openpgp_hashalgo_t h = k.algo == TMCG_OPENPGP_PKALGO_DSA && k.qbits > 256 ? TMCG_OPENPGP_HASHALGO_SHA512 : (ctx.c.coin() ? TMCG_OPENPGP_HASHALGO_SHA256 : TMCG_OPENPGP_HASHALGO_SHA512);
+  int version = ctx.c.prob(1, 5) ? 5 : 4; time_t keytime = vtime() - 5000, sigtime = vtime() - 10; uint64_t seed = ctx.c.raw64();
+  Oct pubpkt = key_packet(k, keytime, false), pubbody = body_of(pubpkt), fpr; PGP::FingerprintCompute(pubbody, fpr);
+  std::unique_ptr<TMCG_OpenPGP_Pubkey> pko(pubkey_object(k, keytime, pubpkt));
+  if (!pko->Good()) { ctx.fail("key/" + A + "/library-key-object-bad", k.name); return; }
+  size_t budget = ctx.thorough ? 4000 : 2500, tries = 0; bool hit = false; DocSig S; Oct data; size_t rl = 0, sl = 0; std::unique_ptr<TMCG_OpenPGP_Signature> sig;
+  for (; tries < budget && !hit; tries++) {
+    data = stream_bytes(seed + tries, 1 + (size_t)(mix64(seed ^ tries) % 40));
+    S = make_docsig(k, version, false, h, sigtime, 0, "", fpr, data);
+    if (!S.ok) { ctx.fail("sig/" + A + "/library-cannot-sign", S.err + " for " + k.name); return; }
+    sig.reset(parse_sig(S.pkt)); if (!sig || !sig->Good()) { ctx.fail("sig/" + A + "/own-signature-unparsable", "SignatureParse refused " + hexs(S.pkt, 400) + " key " + k.name); return; }
+    rl = (gcry_mpi_get_nbits(sig->dsa_r) + 7) / 8; sl = (gcry_mpi_get_nbits(sig->dsa_s) + 7) / 8;
+    hit = want == 0 ? (rl < nominal) : (sl < nominal);
+  }
+  ctx.count("signatures_made_while_searching", (int64_t)tries);
+  std::ostringstream d; d << k.name << " " << hash_name(h) << " v" << version << " nominal " << nominal << " octets, r has " << rl << ", s has " << sl << " (document #" << tries << " of the search, " << data.size() << " octets)";
+  ctx.desc << d.str(); ctx.label(std::string("algo:") + A);
+  if (!hit) { ctx.label("class-not-reached-within-budget"); return; }
+  std::string cls = rl < nominal && sl < nominal ? "both-short" : rl < nominal ? (rl + 1 < nominal ? "r-short-by-two-or-more" : "r-short") : (sl + 1 < nominal ? "s-short-by-two-or-more" : "s-short");
+  ctx.label("class:" + cls); ctx.nontrivial(d.str() + hkey(S.pkt));
+  if (!sig->VerifyData(pko->key, data, 0)) { ctx.fail("sig/" + A + "/untouched-signature-refused/" + (rl < nominal ? "r" : "s") + "-with-leading-zero-octet", "VerifyData refused the library's own signature: " + d.str() + " sig=" + hexs(S.pkt, 600)); return; }
+  if (!sig->VerifyData(k.pub, data, 0)) { ctx.fail("sig/" + A + "/untouched-signature-refused-with-gcrypt-key/" + (rl < nominal ? "r" : "s") + "-with-leading-zero-octet", d.str()); return; }
+  { char tmpl[] = "/tmp/c20doc-XXXXXX"; int fd = mkstemp(tmpl);
+    if (fd >= 0) { close(fd); write_file(tmpl, data); bool ok = sig->Verify(pko->key, std::string(tmpl), 0); unlink(tmpl);
+      if (!ok) { ctx.fail("sig/" + A + "/untouched-signature-refused-from-file/" + (rl < nominal ? "r" : "s") + "-with-leading-zero-octet", d.str()); return; } } }
+  // tamper: the last octet of the packet belongs to s, the octet before the MPI header of s to r
+  for (int which = 0; which < 2 && !ctx.failed; which++) {
+    Oct m = S.pkt; size_t pos = which == 0 ? m.size() - 1 : m.size() - sl - 3; m[pos] ^= 0x04;
+    std::unique_ptr<TMCG_OpenPGP_Signature> t(parse_sig(m)); if (!t) continue; // unparsable = refused
+    if (t->Good() && t->VerifyData(pko->key, data, 0)) ctx.fail("sig/" + A + "/altered-signature-value-accepted/short-value-class", std::string(which ? "r" : "s") + " altered, " + d.str());
+  }
+}
+
 VF_SUB(sig_text_file_vs_memory, 40, 1500) {
   PGP::MemoryGuardReset();
   Key &k = key_named(ctx.c.coin() ? "rsa2048a" : "eddsa-a"); tmcg_openpgp_hashalgo_t h = TMCG_OPENPGP_HASHALGO_SHA256;
